@@ -194,6 +194,17 @@ CHECKS = {
              "table before/after. PARTIAL: real interleavings are sampled, lock time-outs are timing-dependent.",
         note=TRUST + "SQLite locking and the OS scheduler are outside the model.",
         ref="DESIGN.md section 4 C20"),
+    "C07": dict(
+        technique="Coq proof (hook/pcall state machine: plain programs are always stopped within one hook period; pcall loop and exposed controls refuted) + every program shape run for real under a watchdog",
+        text="Theorem c07_plain_programs_are_stopped for every program of the shape grammar that uses neither pcall nor the "
+             "exposed controls; c07_pcall_loop_refuted, c07_pcall_swallows_refuted and c07_clear_hook_refuted show that the full "
+             "statement is false of the faithful model, as it is of the code (two known findings). Each body x wrapper (tight "
+             "loops, library loops, recursion; none/pcall/xpcall/nested/loops/coroutine/clear-hook/raise-limit) is compiled to a "
+             "Lua module and run with a 1 s limit in its own process under an external kill, checking the abort bound, the "
+             "timeout element, and that the same context then expands benign invocations correctly. PARTIAL: real time is "
+             "outside the model.",
+        note=TRUST + "hook delivery, os.time() granularity and C-function duration are runtime behaviour; mw.ustring stubbed.",
+        ref="DESIGN.md section 4 C07"),
 }
 
 NOT_YET = "check not built yet in this round (planned, see DESIGN.md section 8)"
